@@ -284,7 +284,8 @@ def k2(ctx):
         for e in r['path'].trace:
             if e.kind == 'TEST' and e.d['val'].k == 'cmp' and e.d['val'].a[0] in (('Is',), ('IsNot',)):
                 a, b = e.d['val'].a[1]
-                if (a.k == 'param' and a.a[0] == 'value' and b.is_const and b.val is None):
+                if (a.k == 'param' and a.a[0] == 'value' and b.is_const and b.val is None) or \
+                        (b.k == 'param' and b.a[0] == 'value' and a.is_const and a.val is None):
                     isnone = e.d['truth'] if e.d['val'].a[0] == ('Is',) else not e.d['truth']
         if isnone is True:
             n_file += 1
